@@ -41,7 +41,8 @@ class XPathConstructor(XPathFunction):
         except SyntaxError:
             raise self.error('XPST0017') from None
         else:
-            if self[0].symbol == '?':
+            if self[0].symbol == '?' and not self[0]:
+                # a placeholder, not a lookup expression (e.g. $map?key)
                 self.to_partial_function()
             return self
 
